@@ -11,7 +11,7 @@ ID = 'C05'
 LEVEL = 'exploration'
 RUNS = {'quick': 16000, 'thorough': 300000}
 CHUNK = 50
-PROBES = ['many_threads_pending', 'newthread_names_live_peer', 'peer_terminate_inside_open_window', 'switch_between_data_and_string', 'switch_between_data_and_string_both_threads', 'switch_between_lookup_chunks',
+PROBES = ['huge_gap_inside_open_window', 'exit_string_repeats_learned_name', 'many_threads_pending', 'newthread_names_live_peer', 'peer_terminate_inside_open_window', 'switch_between_data_and_string', 'switch_between_data_and_string_both_threads', 'switch_between_lookup_chunks',
           'switch_between_string_chunks', 'switch_after_start', 'switch_inside_sample', 'three_or_more_threads',
           'dropped_record']
 RULE = ('one run = 2..6 thread programs, each executed solo (baseline) and merged under 6 seeded schedules of different '
@@ -57,6 +57,13 @@ def draw_sensitive(rng, per, table):
 
 
 def generate(rng, index, tier):
+    if index % 4001 == 7:
+        # one thread stays inside a call while another thread emits a very large number of records
+        n = [66000, 140000][(index // 4001) % 2]
+        s_, e_ = worlds.domains.draw(rng, 'BSC_getpid')
+        x = {'tid': 100, 'ops': [{'k': 'sys', 'name': 'BSC_getpid', 's': s_, 'e': e_, 'in': []}]}
+        y = {'tid': 117, 'ops': [dict(worlds.op_single(rng, 'MACH_MKRUNNABLE')) for _ in range(n)]}
+        return {'threads': [x, y], 'schedules': [[0] + [1] * n + [0], [1] * 5 + [0] + [1] * (n - 5)], 'faults': [], 'huge': n}
     if index % 499 == 3:
         # many threads: every one announces a thread/process (data record, then its name string); with a round-robin merge
         # all data records are pending at once before the first string arrives
@@ -105,7 +112,16 @@ def generate(rng, index, tier):
             a, b = rng.sample(range(len(threads)), 2)
             born = [op['ops'][0]['a'][0] for op in threads[b]['ops'] if op.get('k') == 'seq' and op['ops'] and op['ops'][0].get('name') == 'TRACE_DATA_NEWTHREAD']
             r3 = rng.random()
-            if r3 < 0.3:
+            pairs_b = [(op['ops'][0]['a'][1] if op['ops'][0]['name'] == 'TRACE_DATA_NEWTHREAD' else op['ops'][0]['a'][0], op['ops'][1]['a'])
+                       for op in threads[b]['ops'] if op.get('k') == 'seq' and len(op['ops']) == 2 and op['ops'][0].get('name', '').startswith('TRACE_DATA')]
+            if pairs_b and r3 < 0.25:
+                # thread a is sampled as belonging to the very process that thread b's pair names, and reports that name in a
+                # process-exit string: unrelated to what b's own pair teaches
+                pid_, namewords = rng.pick(pairs_b)
+                threads[a]['ops'].insert(rng.randrange(len(threads[a]['ops']) + 1),
+                                         {'k': 'one', 'name': 'TRACE_STRING_PROC_EXIT', 'q': 0, 'a': list(namewords)})
+                pert = {'k': 'one', 'name': 'PERF_THD_Data', 'q': 0, 'a': [pid_, threads[a]['tid'], 0, 0]}
+            elif r3 < 0.3:
                 # a new-thread record (exec-copy flag set or not) that names a LIVE peer, emitted inside an open window of its thread
                 nt = worlds.op_newthread(rng, threads[b]['tid'], 71000 + rng.randrange(99), rng.ident())
                 nt['ops'][0]['a'][2] = rng.pick([0, 1, 1, 7])
@@ -159,6 +175,11 @@ def execute(scn):
         bump('probe:three_or_more_threads')
     if scn.get('many'):
         bump('probe:many_threads_pending')
+    if scn.get('huge'):
+        bump('probe:huge_gap_inside_open_window')
+    exits = [kernel.records.data_of(r['a']) for p in per for r in p if table.get(r['id']) == 'TRACE_STRING_PROC_EXIT']
+    if exits and any(kernel.records.data_of(r['a']) in exits for p in per for r in p if table.get(r['id']) in ('TRACE_STRING_NEWTHREAD', 'TRACE_STRING_EXEC')):
+        bump('probe:exit_string_repeats_learned_name')
     tids = {th['tid'] for th in scn['threads']}
     if any(r['a'][0] in tids for p in per for r in p if table.get(r['id']) == 'TRACE_DATA_NEWTHREAD'):
         bump('probe:newthread_names_live_peer')
